@@ -17,7 +17,7 @@ LEVEL_TEXT = ("For each of the 9 device types, batches of datagrams are built fr
               "be delivered per datagram. Sampling, no proof.")
 RULE = ("case = device type + list of field dictionaries (one datagram each); non-trivial = the 6 MAC bytes and 4 IP bytes are "
         "pairwise distinct and numeric fields are non-zero; distinct by datagram fields."
-        ' A third of the batches run under a host zone other than UTC; names include non-NFC-stable forms, a leading U+FEFF and leading/trailing blanks. soak: 66 000 datagrams, every other one a well-formed broadcast (thorough 140 000, all well-formed) through one bridge port in one process, each must arrive exactly once.')
+        ' A third of the batches run under a host zone other than UTC; names include non-NFC-stable forms, a leading U+FEFF and leading/trailing blanks. sweep-soak: 66 000 datagrams through one bridge port in one process, every other one a well-formed broadcast (thorough 140 000, all well-formed) whose numeric fields walk through their whole ranges (power and temperature 0..65535, times 0..86399, key, target, position): each arrives exactly once and every field is compared.')
 ASSUMPTIONS = [
     "broadcast layout of DESIGN appendix A.3 pinned by the 4 device captures + 12 on/off captures",
     "last_data_update, the on/off state of shutters and values outside the stated domains are not asserted",
@@ -168,13 +168,65 @@ def strat(code):
                              st.sampled_from(["UTC", "UTC", "UTC", "Asia/Jerusalem", "America/New_York", "Asia/Kathmandu"]))
 
 
+def sweep_fields(i, stride):
+    """The i-th broadcast of the sweep: families in turn, every numeric field walking through its whole range."""
+    code = list(refb.MODELS)[i % len(refb.MODELS)]
+    cat = refb.MODELS[code][1]
+    k = i * stride
+    f = {"model": code, "device_id": f"{(i * 2654435761) % 0xFFFFFF:06x}", "key": k % 256, "name": f"dev {i}",
+         "ip": [10, k % 256, (k >> 8) % 256, (k * 7) % 256], "mac": [(k + j * 41) % 256 for j in range(6)]}
+    if cat in ("WATER_HEATER", "POWER_PLUG"):
+        f.update(on=i % 5 != 0, power=k % 65536, remaining=(k * 5) % 86400, auto_shutdown=(k * 11 + 3) % 86400)
+    elif cat == "SHUTTER":
+        f.update(position=k % 101, direction=["stop", "up", "down"][i % 3])
+    else:
+        f.update(on=i % 5 != 0, mode=1 + i % 5, target=k % 256, fan=i % 4, swing=i % 2, temp_tenths=k % 65536,
+                 remote_id="ELEC%04d" % (i % 10000))
+    return f
+
+
+def body_sweep(rep, case):
+    """Tens of thousands of broadcasts through ONE bridge port in one process, the numeric fields walking through their whole
+    ranges: each one arrives exactly once and decodes exactly (a parser has no business singling out a value, and a bridge
+    none in counting its datagrams)."""
+    async def go():
+        rig = udptx.Rig(1)
+        rig.quiet_windows = True
+        await rig.start()
+        try:
+            port = rig.ports[0]
+            junk = b"\x00" * 165
+            sent = []
+            for i in range(case["n"]):
+                if case["valid_every"] > 1 and i % case["valid_every"]:
+                    await rig.send(port, junk)
+                    continue
+                f = sweep_fields(i // case["valid_every"], case["stride"])
+                sent.append(f)
+                await rig.send(port, refb.encode(f, salt=2))
+                if len(sent) % 4096 == 0 and await rig.barrier():
+                    return sent, list(rig.callbacks), [port], list(rig.loop_errors)
+            dead = await rig.barrier()
+            return sent, list(rig.callbacks), dead, list(rig.loop_errors)
+        finally:
+            await rig.stop()
+    sent, got, dead, loop_errors = net.run(go(), timeout=1800)
+    rep.tick("sweep-soak", key=case, nontrivial=True, sample=dict(case, first=sent[1] if len(sent) > 1 else None), n=len(sent), labels=("soak",))
+    if dead:
+        raise Violation("C05/delivery-stops/soak", case, "closing sentinel delivered", {"delivered": len(got), "loop_errors": loop_errors[:3]})
+    if len(got) != len(sent):
+        raise Violation("C05/callback-count/soak", case, len(sent), {"callbacks": len(got), "loop_errors": loop_errors[:3]})
+    for f, dev in zip(sent, got):
+        judge(f, dev, {"datagrams": [f], "salt": 2})
+
+
 def subchecks(tier):
     big = tier == "thorough"
     subs = []
     for code, (fam, cat, proto) in refb.MODELS.items():
         subs.append(Sub(f"type={fam}", make_body(f"type={fam}"), strategy=strat(code), n=12_000 if big else 500,
                         shards=4 if big else 1, shrink_budget=120))
-    from . import c07
-    subs.append(Sub("soak", lambda rep, case: c07.body_soak(rep, case, "C05"), shards=2, exhaustive=False,
-                    cases=lambda: ([{"n": 66_000, "valid_every": 2}] if not big else [{"n": 140_000, "valid_every": 1}, {"n": 70_000, "valid_every": 3}])))
+    subs.append(Sub("sweep-soak", body_sweep, shards=2, exhaustive=False,
+                    cases=lambda: ([{"n": 66_000, "valid_every": 2, "stride": 2}] if not big else
+                                   [{"n": 140_000, "valid_every": 1, "stride": 1}, {"n": 70_000, "valid_every": 3, "stride": 3}])))
     return subs
